@@ -12,7 +12,8 @@ MOD = "mc.props.c03"
 TOL = 1e-9   # unit-free identity (DESIGN §5)
 
 SHEAR_PAIRS = [(a, b) for a in range(1, 7) for b in range(a, 7) if b >= 4]
-STRAINS = ["thirds", "const", "extreme", "field"]
+STRAINS = ["thirds", "const", "extreme", "field", "mixed-rows", "two-equal"]
+SCALES = [1.0, 1e-12, 1e-7, 1e9]      # the map is homogeneous: the same tensors on other numeric scales (Ry/bohr^3 values are ~1e-2..1e-12)
 GENERIC = None
 
 
@@ -96,6 +97,8 @@ def run_case(case):
     tensors = [(f"E{p}", m) for p, m in zip(R.PAIRS21, basis)]
     tensors += [(f"E{R.PAIRS21[i]}+E{R.PAIRS21[j]}", basis[i] + basis[j]) for i, j in itertools.combinations(range(21), 2)]
     tensors.append(("generic", generic_tensor()))
+    for sc in SCALES[1:]:
+        tensors += [(f"{sc:g}*E{p}", sc * m) for p, m in zip(R.PAIRS21, basis)] + [(f"{sc:g}*generic", sc * generic_tensor())]
     for name, C6 in tensors:
         try:
             got, want = solve(obj, C6, T)
@@ -105,7 +108,7 @@ def run_case(case):
         n_eval += 1
         err = abs(got - want)
         worst = max(worst, err)
-        if not err <= TOL * max(1.0, numpy.abs(C6).max()):
+        if not err <= TOL * numpy.abs(C6).max():
             viol.append(V("c03:inexact", f"c{a}{b} on tensor {name}: solver returned {got!r}, exact component {want!r}"))
             if len(viol) > 4:
                 break
@@ -135,13 +138,14 @@ def run_case(case):
 
 
 def explore(ctx):
-    ctx.rule = ("15 shear-type keys x 4 axial-strain fields; each case runs the solver on the 21 unit tensors, all 210 "
-                "pairwise sums (linearity is tested, not assumed) and one generic tensor, with exact components supplied "
+    ctx.rule = ("15 shear-type keys x 6 axial-strain fields (incl. a hydrostatic row among anisotropic rows, two equal fractions); each case "
+                "runs the solver on the 21 unit tensors, all 210 pairwise sums (linearity is tested, not assumed) and one generic tensor, the "
+                "unit and generic tensors also on the numeric scales 1e-12, 1e-7, 1e9 (homogeneity), with exact components supplied "
                 "from an independent einsum rotation; plus all 48 sign/column-order variants of the frame; complete in "
                 "both tiers; non-trivial = solver evaluated at least once")
     ctx.assumptions = ["numpy einsum/LAPACK", "frame taken from the implementation only after checking it is a real orthonormal eigenbasis of the key's fictitious strain"]
     cases = [{"key": list(k), "strain": s} for k in SHEAR_PAIRS for s in STRAINS]
-    res = ctx.run(MOD, "run_case", cases, part="basis-exactness", transitions=len(cases) * 232)
+    res = ctx.run(MOD, "run_case", cases, part="basis-exactness", transitions=len(cases) * (232 + 66))
     ctx.notes["solver_evaluations"] = sum(r.get("evals", 0) for r in res)
     ctx.notes["frame_substitutions"] = sum(r.get("subst", 0) for r in res)
     ctx.notes["worst_abs_error"] = max([r.get("worst", 0.0) for r in res] or [0.0])
